@@ -10,7 +10,7 @@ RULE = ("latitudes (1-D domain): uniform grid of 2e5 (quick) / 2e6 (thorough) po
         "10^-k (k=1..15) to 0 and +-90, Hypothesis floats in [-pi/2,pi/2] (subnormals, +-0, exact bounds), the degree path "
         "through from_lonlat/to_lonlat. Oracle: closed-form WGS84 authalic latitude (cancellation-free near the poles; audited "
         "against mpmath at 50 digits on a sub-grid) within 1e-10; odd; strictly increasing on consecutive grid points and on "
-        "pairs >=1e-12 apart; fixes 0 and +-pi/2 to 1e-15; inverse(forward(phi)) within 1e-12. Every grid point is a distinct "
+        "pairs >=1e-12 apart; fixes 0 and +-pi/2 to 1e-15; inverse(forward(phi)) within 1e-12. Call sequences (forward/inverse over a pool of 1-3 values, length 2-8) on a long-lived converter and on the library's singleton must answer like a fresh converter. Every grid point is a distinct "
         "case; non-trivial = all except phi=0.")
 ASSUMPTIONS = ["WGS84 flattening 1/298.257223563; closed form q(phi) per Snyder 3-11/3-12"]
 TOL_FWD = 1e-10
@@ -126,6 +126,8 @@ def stage_audit(ctx):
 
 
 def judge(case, col):
+    if "ops" in case:
+        return judge_sequence(case, col)
     A, ct = _lib()
     if "phi_prev" in case or "pair" in case:
         a, b = (case["phi_prev"], case["phi"]) if "phi_prev" in case else case["pair"]
@@ -160,9 +162,38 @@ def stage_hyp(ctx):
     hyp_drive(ctx, cases(), judge, 3000 if ctx.tier == "quick" else 60000)
 
 
+def judge_sequence(case, col):
+    """A long-lived converter object (and the library's own singleton) must answer every call like a fresh one,
+    whatever was asked before: sequences of forward/inverse over a small pool of values (so that equal arguments meet)."""
+    from a5.projections.authalic import AuthalicProjection
+    from a5.core import coordinate_transforms as ct
+    ops = case["ops"]
+    for name, obj in (("own_instance", AuthalicProjection()), ("library_singleton", ct.authalic)):
+        for i, (op, v) in enumerate(ops):
+            fresh = AuthalicProjection()
+            want = fresh.forward(v) if op == "f" else fresh.inverse(v)
+            got = obj.forward(v) if op == "f" else obj.inverse(v)
+            if got != want:
+                raise Violation("result_depends_on_earlier_calls", case, observed=f"{op}({v!r}) = {got!r} on {name} after {i} calls",
+                                expected=f"{want!r} (fresh converter)")
+            if op == "f" and abs(got - refgeo.authalic_lat_closed(v)) > TOL_FWD:
+                raise Violation("forward_vs_closed_form", case, observed=got, expected=refgeo.authalic_lat_closed(v))
+    col.case(case, nontrivial=len({v for _, v in ops}) < len(ops), classes=("sequence", f"seq_len{min(len(ops), 8)}"))
+
+
+def sequences():
+    pool = st.lists(st.floats(-math.pi / 2, math.pi / 2, allow_nan=False), min_size=1, max_size=3)
+    return pool.flatmap(lambda vals: st.lists(st.tuples(st.sampled_from(["f", "i"]), st.sampled_from(vals)), min_size=2, max_size=8)
+                        ).map(lambda ops: {"ops": [list(o) for o in ops]})
+
+
+def stage_sequences(ctx):
+    hyp_drive(ctx, sequences(), judge_sequence, 800 if ctx.tier == "quick" else 20000)
+
+
 def plan(tier):
     return [Stage("grid", 16, stage_grid, cost=6), Stage("special", 1, stage_special), Stage("audit", 4, stage_audit, cost=3),
-            Stage("hyp", 8, stage_hyp, cost=3)]
+            Stage("hyp", 8, stage_hyp, cost=3), Stage("sequences", 4, stage_sequences, cost=3)]
 
 
 def replay(rec, col):
